@@ -8,8 +8,9 @@ def jobs(tier):
     js = []
     for sh in (SHAPES_QUICK if tier == "quick" else SHAPES_THOROUGH):
         name = sh.replace("(", "L").replace(")", "R")
+        big = sh.count("B") >= 4       # operator-kind combinations grow as 18^n: explored until the budget ends
         js.append(vp.Job("eval_grammar." + name, "eval_grammar.cpp", {"SHAPE": '"%s"' % sh}, uf_muldiv=True,
-                         max_paths=400000, timeout=500 if tier == "quick" else 2400, min_completed=1))
+                         max_paths=400000, timeout=500 if tier == "quick" else (1200 if big else 2400), min_completed=1, allow_partial=big))
     # (c) literal notations through the real tokenizer
     L = lambda name, d: js.append(vp.Job("literals." + name, "literals.cpp", d, max_paths=200000, timeout=500, min_completed=1))
     for cls, cn in ((0, "digits"), (1, "letters"), (2, "lead_letter"), (3, "lead_upper")):
@@ -29,4 +30,4 @@ def main(tier):
         ["grammar jobs: token stream replaced by a skeleton (tokens_get/tokens_push stubbed); literal jobs: '.dc64 <literal>' through the real two-pass assembler with symbolic digits (hex 16 digits in four letter-case classes, 0x prefix / h suffix / _ separators, decimal up to 18 digits, binary up to 31 bits, octal with q suffix up to 21 digits, character literals)",
          "symbolic x symbolic 64-bit *, /, % are uninterpreted functions shared by implementation and oracle (congruence); their leaf semantics is LLVM mul/sdiv/srem",
          "floating point operands outside the claim",
-         "bounds: expression shapes listed in checks/C04.py (up to 4 binary operators flat, one parenthesis level, unary prefixes)"])
+         "bounds: expression shapes listed in checks/C04.py (up to 3 binary operators flat exhaustively; shapes with 4 or 5 binary operators are explored until their time budget ends, pending paths reported; one parenthesis level, unary prefixes)"])
